@@ -499,7 +499,7 @@ fn ticks(now: i64) -> Vec<i64> {
     t
 }
 
-async fn run_cases(root: &std::path::PathBuf, out: &mut Outcome, shard: (usize, usize), only: Option<&Value>) -> Result<(), String> {
+async fn run_cases(root: &std::path::PathBuf, out: &mut Outcome, shard: (usize, usize), only: Option<&Value>, tier: Tier) -> Result<(), String> {
     set_clock(tick(0));
     let u = Universe::start(root).await?;
     let mut w = Watch::new(&u).await;
@@ -507,6 +507,7 @@ async fn run_cases(root: &std::path::PathBuf, out: &mut Outcome, shard: (usize, 
     let r2 = u.create_room(0, tick(0), &[(vec![("*", true, true)], vec![1, 2, 3], vec![])]).await?;
     let r2_export = wire(&u.peers[0].db.get_room_node(r2.id).await.map_err(|e| e.to_string())?.unwrap()).await;
     let mut case_no = 0usize;
+    let mut group_no = 0usize;
     for sc in scenarios() {
         for fresh in [false, true] {
             for m in [2usize, 3] {
@@ -519,13 +520,35 @@ async fn run_cases(root: &std::path::PathBuf, out: &mut Outcome, shard: (usize, 
                     .into_iter()
                     .map(|c| (c.name, c.list))
                     .collect();
-                for (ci, (cname, clist)) in names.iter().enumerate() {
+                group_no += 1;
+                let pairs_too = tier == Tier::Thorough || only.map(|o| o["candidate"].as_str().unwrap_or("").contains('+')).unwrap_or(false);
+                if pairs_too && only.is_none() && group_no % shard.1 != shard.0 {
+                    continue;
+                }
+                // a case = one transformation (quick) or also two composed transformations (thorough)
+                let mut specs: Vec<Vec<usize>> = (0..names.len()).map(|i| vec![i]).collect();
+                let mut clean: Vec<usize> = vec![];
+                let mut si = 0usize;
+                while si < specs.len() {
+                    let spec = specs[si].clone();
+                    si += 1;
+                    let cname_s: String = spec.iter().map(|i| names[*i].0.clone()).collect::<Vec<_>>().join("+");
+                    let clist_s: String = spec.iter().map(|i| names[*i].1.to_string()).collect::<Vec<_>>().join("+");
+                    let (cname, clist) = (&cname_s, &clist_s);
                     case_no += 1;
-                    if case_no % shard.1 != shard.0 {
+                    if !pairs_too && case_no % shard.1 != shard.0 {
                         continue;
                     }
                     if let Some(o) = only {
                         if o["scenario"] != sc.name || o["fresh"] != fresh || o["attacker"] != m || o["candidate"] != *cname || o["list"] != *clist {
+                            // composed candidates are generated after the single ones
+                            if si == names.len() && pairs_too {
+                                for a in 0..names.len() {
+                                    for b2 in (a + 1)..names.len() {
+                                        specs.push(vec![a, b2]);
+                                    }
+                                }
+                            }
                             continue;
                         }
                     }
@@ -535,8 +558,30 @@ async fn run_cases(root: &std::path::PathBuf, out: &mut Outcome, shard: (usize, 
                         out.transitions += 1;
                     }
                     let b = built.as_ref().unwrap();
-                    let cands = candidates(&u, &b.export_full, m, b.now, &r2_export, sc.new.len());
-                    let cand = &cands[ci];
+                    let mut node = b.export_full.clone();
+                    let mut expect = Expect::Full;
+                    let mut applicable = true;
+                    for &ci in &spec {
+                        let cands = candidates(&u, &node, m, b.now, &r2_export, sc.new.len());
+                        match cands.into_iter().find(|c| c.name == names[ci].0 && c.list == names[ci].1) {
+                            Some(c) => {
+                                if spec.len() == 1 {
+                                    expect = c.expect.clone();
+                                }
+                                node = c.node;
+                            }
+                            None => {
+                                applicable = false;
+                                break;
+                            }
+                        }
+                    }
+                    if !applicable {
+                        out.count("composition-not-applicable");
+                        continue;
+                    }
+                    let cand = &Cand { name: cname_s.clone(), list: "-", node, expect };
+                    let viol_before: u64 = out.outcomes.iter().filter(|(k, _)| k.starts_with("viol:")).map(|(_, v)| *v).sum();
                     set_clock(b.now);
                     w.drain()?;
                     let tk = ticks(b.now);
@@ -619,6 +664,18 @@ async fn run_cases(root: &std::path::PathBuf, out: &mut Outcome, shard: (usize, 
                     if changed || fresh || res.is_ok() {
                         built = None;
                     }
+                    let viol_after: u64 = out.outcomes.iter().filter(|(k, _)| k.starts_with("viol:")).map(|(_, v)| *v).sum();
+                    if spec.len() == 1 && viol_after == viol_before && cname != "honest" && matches!(cand.expect, Expect::Full) {
+                        clean.push(spec[0]);
+                    }
+                    // once the single transformations of this group are done, compose the clean ones pairwise
+                    if si == names.len() && pairs_too && only.is_none() {
+                        for a in 0..clean.len() {
+                            for b2 in (a + 1)..clean.len() {
+                                specs.push(vec![clean[a], clean[b2]]);
+                            }
+                        }
+                    }
                 }
             }
         }
@@ -683,7 +740,7 @@ fn replay(path: &str) -> i32 {
     let rt = runtime();
     for round in 0..2 {
         let mut out = Outcome::default();
-        let res = rt.block_on(run_cases(&root, &mut out, (0, 1), Some(&r)));
+        let res = rt.block_on(run_cases(&root, &mut out, (0, 1), Some(&r), Tier::Quick));
         println!("replay round {}: {:?}", round, res);
         for v in &out.violations {
             println!("  {} :: {}", v.key, v.what);
@@ -702,7 +759,7 @@ pub fn run(args: &Args) -> i32 {
         let _g = ScratchGuard(root.clone());
         let rt = runtime();
         let mut out = Outcome::default();
-        if let Err(e) = rt.block_on(run_cases(&root, &mut out, (i, n), None)) {
+        if let Err(e) = rt.block_on(run_cases(&root, &mut out, (i, n), None, args.tier)) {
             out.machinery_errors.push(e);
         }
         emit_shard_outcome(&out);
@@ -714,14 +771,13 @@ pub fn run(args: &Args) -> i32 {
         prop: "C07",
         level: "model_checking",
         rule: "3 scenarios (victim's earlier definition, sender's richer one) x victim {has earlier version, never saw the room} x attacker {member, outsider} x every single transformation of the honest export (about 45 operators x dates x lists) delivered through the real signature check and add_room_node, plus 12 delivery orders/multiplicities of honest exports per scenario; states = distinct resulting decision matrices; non-trivial = distinct (operator, list, attacker, victim kind, verdict)".into(),
-        bounds: json!({"scenarios": 3, "attackers": 2, "victims": 2, "single_transformations_only": true}),
+        bounds: json!({"scenarios": 3, "attackers": 2, "victims": 2, "compositions": args.tier.pick("single transformations", "single transformations + every pair of individually clean ones")}),
         assumptions: vec![
             "member and outsider attackers are never entitled to add anything, so whatever they sign is never legitimate; honest entries are legitimate".into(),
             "resulting decisions are read from the RoomModified event the victim emits".into(),
-            "only single transformations in this tier (pairs are not enumerated)".into(),
+            "quick: single transformations; thorough: also every pair of transformations that were individually judged clean (a pair containing a known-bad transformation would only repeat its finding)".into(),
         ],
         exhaustive_claim: true,
     };
-    let _ = args.tier;
     finish(args, &meta, &out, start)
 }
